@@ -21,6 +21,7 @@ class Extractor:
         self.prims_used = set()
         self.classes = {}       # class name -> predicate descriptor (fn path or closure node)
         self.checks = []        # (fn path, what, node)
+        self.chains = {}        # fn path -> [{'g': grammar, 'bind': binding of the parsed value | None, 'app': application node}] of a let-chain body
 
     def fn_grammar(self, path):
         rec = self.facts.hir[path]
@@ -125,6 +126,9 @@ class Extractor:
         inp = [x[0] for p in params for x in hirq.pat_bindings(p)]
         if b['k'] != 'Block':
             return self.apply_grammar(b, inp)
+        top = b is self.facts.hir[self.cur]['body']      # the function's own body (not a closure inside a combinator expression)
+        if top:
+            self.chains[self.cur] = []
         seq = []
         cur = set(inp)
         for s in b['stmts']:
@@ -145,8 +149,12 @@ class Extractor:
                     return g
                 # the remainder is the first component of the bound tuple; the value binding names this element for guards
                 pat = s['pat']
-                if pat['k'] == 'PTuple' and len(pat['pats']) == 2 and pat['pats'][1]['k'] == 'Bind':
-                    g = ('bound', pat['pats'][1]['bind'], g)
+                vb = pat['pats'][1]['bind'] if (pat['k'] == 'PTuple' and len(pat['pats']) == 2 and pat['pats'][1]['k'] == 'Bind') else None
+                if top:
+                    self.chains[self.cur].append({'g': flat(g), 'bind': vb, 'app': init['e'],
+                                                  'unused': pat['k'] == 'PTuple' and len(pat['pats']) == 2 and pat['pats'][1]['k'] == 'Wild'})
+                if vb is not None:
+                    g = ('bound', vb, g)
                 seq.append(g)
                 if pat['k'] == 'PTuple' and pat['pats'] and pat['pats'][0]['k'] == 'Bind':
                     cur = {pat['pats'][0]['bind']}
@@ -226,14 +234,14 @@ class Extractor:
             return self.comb(a[0])
         if cal == 'nom::combinator::map_res':
             self.checks.append((self.cur, 'map_res', a[1]))
-            return ('check', self.comb(a[0]), 'map_res')
+            return ('check', self.comb(a[0]), 'map_res', a[1])
         if cal == 'nom::combinator::verify':
             inner = self.comb(a[0])
             if inner == ('class', 'any'):
                 name = self.class_name(a[1])
                 return ('class', name)
             self.checks.append((self.cur, 'verify', a[1]))
-            return ('check', inner, 'verify')
+            return ('check', inner, 'verify', a[1])
         if cal in ('nom::bytes::complete::tag', 'nom::bytes::streaming::tag'):
             v = hirq.const_eval(self.facts, a[0])
             if isinstance(v, str):
@@ -297,7 +305,7 @@ def flat(g):
     if g[0] in ('star', 'plus', 'opt', 'peek'):
         return (g[0], flat(g[1]))
     if g[0] == 'check':
-        return ('check', flat(g[1]), g[2])
+        return ('check', flat(g[1])) + tuple(g[2:])
     if g[0] == 'alt':
         return ('alt', [flat(x) for x in g[1]])
     return g
@@ -451,13 +459,57 @@ def _guard_true(facts, cond, present):
             return present[b] == (cond['name'] == 'is_some')
     raise NoNormalForm('guard condition outside is_some()/is_none() of optional parts')
 
-def language(facts, g, lookup, rec, classmap, depth=0):
-    """set of tuples of atoms"""
+_VERDICTS = {}
+
+def closure_verdict(facts, node, what, env, arg):
+    """What the acceptance test of a `verify` / `map_res` says when it is applied to `arg` with the values in env (binding ->
+    term) for the locals it captures: True (accepts) / False (rejects) / None (not decided: depends on what was parsed, or not
+    evaluable).  Evaluated by the abstract interpreter on the closure's HIR; exact on literals."""
+    import absx
+    if node is None or node.get('k') != 'Closure':
+        return None
+    key = (id(node), what, tuple(sorted(env.items())), arg)
+    if key in _VERDICTS:
+        return _VERDICTS[key]
+    owner = node['def'].rsplit('::{closure', 1)[0]
+    while owner not in facts.hir and '::{closure' in owner:
+        owner = owner.rsplit('::{closure', 1)[0]
+    res = None
+    if owner in facts.hir:
+        B = hirq.Body(facts, facts.hir[owner])
+        I = absx.Interp(facts, B)
+        try:
+            outs = I.apply_closure(('closure', node['def']), [arg], absx.St(dict(env)), node)
+        except absx.TooManyPaths:
+            outs = None
+        verdicts = set()
+        for o in outs or ():
+            v = o.val
+            if o.kind not in ('val', 'ret'):
+                verdicts.add(None)
+            elif what == 'verify':
+                verdicts.add(True if v == absx.TRUE else False if v == absx.FALSE else None)
+            else:
+                verdicts.add(True if (v[0] == 'ctor' and v[1] == 'Ok') else False if (v[0] == 'ctor' and v[1] == 'Err') else None)
+        if len(verdicts) == 1:
+            res = verdicts.pop()
+    _VERDICTS[key] = res
+    return res
+
+def _unbound(g):
+    while g[0] == 'bound':
+        g = g[2]
+    return g
+
+def language(facts, g, lookup, rec, classmap, depth=0, env=None):
+    """set of tuples of atoms.  env: binding -> literal term of the values chosen so far in the enclosing sequences (the literal an
+    alternative of literals matched): an acceptance test that only looks at those is decided instead of kept as an opaque check."""
     if depth > 60:
         raise NoNormalForm('expansion too deep')
+    env = env or {}
     k = g[0]
     if k == 'bound':
-        return language(facts, g[2], lookup, rec, classmap, depth)
+        return language(facts, g[2], lookup, rec, classmap, depth, env)
     if k == 'lit':
         return {tuple(('b', x) for x in g[1])}
     if k == 'class':
@@ -470,13 +522,31 @@ def language(facts, g, lookup, rec, classmap, depth=0):
         body = lookup(n)
         if body is None:
             raise NoNormalForm('reference to an unknown rule ' + n)
-        return language(facts, body, lookup, rec, classmap, depth + 1)
+        return language(facts, body, lookup, rec, classmap, depth + 1)          # a function body sees its own bindings only
     if k in ('star', 'plus'):
-        return {((k, frozenset(language(facts, g[1], lookup, rec, classmap, depth + 1))),)}
+        inner = language(facts, g[1], lookup, rec, classmap, depth + 1, env)
+        if not (inner - {()}):
+            # nothing (or only the empty string) can be repeated: the repetition matches the empty string - `plus` only if its
+            # body does
+            return {()} if (k == 'star' or () in inner) else set()
+        return {((k, frozenset(inner)),)}
     if k == 'check':
-        return {(('check', '', frozenset(language(facts, g[1], lookup, rec, classmap, depth + 1))),)}
+        inner = language(facts, g[1], lookup, rec, classmap, depth + 1, env)
+        node = g[3] if len(g) > 3 else None
+        if not inner:
+            return set()
+        # a test that does not look at what was parsed (only at values fixed earlier in the sequence) is decided here ...
+        v = closure_verdict(facts, node, g[2], env, ('param', '#parsed'))
+        # ... and so is a test that only the empty repetition can reach: it sees the one value an empty `many0` yields
+        if v is None and inner == {()} and _unbound(g[1])[0] == 'star':
+            v = closure_verdict(facts, node, g[2], env, ('vec', ()))
+        if v is True:
+            return inner
+        if v is False:
+            return set()
+        return {(('check', '', frozenset(inner)),)}
     if k == 'opt':
-        return {()} | language(facts, g[1], lookup, rec, classmap, depth + 1)
+        return {()} | language(facts, g[1], lookup, rec, classmap, depth + 1, env)
     if k == 'peek':
         # a lookahead only restricts when an optional part is taken; the set of sequences is compared without it (what it
         # costs or saves is decided by pegcommit on the PEG reading)
@@ -484,10 +554,10 @@ def language(facts, g, lookup, rec, classmap, depth=0):
     if k == 'alt':
         out = set()
         for x in g[1]:
-            out |= language(facts, x, lookup, rec, classmap, depth + 1)
+            out |= language(facts, x, lookup, rec, classmap, depth + 1, env)
         return out
     if k == 'seq':
-        combos = [((), {})]          # (atoms so far, presence of bound optional parts)
+        combos = [((), {})]          # (atoms so far, what is known of the bound parts: presence of an optional part / the literal matched)
         for el in g[1]:
             nxt = []
             if el[0] == 'guard':
@@ -498,12 +568,21 @@ def language(facts, g, lookup, rec, classmap, depth=0):
                 continue
             bind = el[1] if el[0] == 'bound' else None
             inner = el[2] if el[0] == 'bound' else el
-            if inner[0] == 'opt' and bind is not None:
-                alts = [((), False)] + [(t, True) for t in language(facts, inner[1], lookup, rec, classmap, depth + 1)]
-            else:
-                alts = [(t, None) for t in language(facts, inner, lookup, rec, classmap, depth + 1)]
+            lits = [inner] if inner[0] == 'lit' else inner[1] if (inner[0] == 'alt' and all(x[0] == 'lit' for x in inner[1])) else None
+            memo = {}
             for atoms, pres in combos:
-                for t, p in alts:
+                # the values fixed so far that a later acceptance test may consult: the literal a bound alternative of literals matched
+                env2 = dict(env)
+                env2.update({b: ('lit', v) for b, v in pres.items() if isinstance(v, bytes)})
+                ek = tuple(sorted(env2.items()))
+                if ek not in memo:
+                    if inner[0] == 'opt' and bind is not None:
+                        memo[ek] = [((), False)] + [(t, True) for t in language(facts, inner[1], lookup, rec, classmap, depth + 1, env2)]
+                    elif bind is not None and lits is not None:
+                        memo[ek] = [(tuple(('b', c) for c in x[1]), bytes(x[1])) for x in lits]
+                    else:
+                        memo[ek] = [(t, None) for t in language(facts, inner, lookup, rec, classmap, depth + 1, env2)]
+                for t, p in memo[ek]:
                     pr = pres if p is None else dict(pres, **{bind: p})
                     nxt.append((atoms + t, pr))
             combos = nxt
